@@ -12,10 +12,11 @@
    Still open (known_findings.d/C16.json, findings/F_C16_callbacks.v): the history key of a
    custom metric, '<phase>_<name>' in the callbacks vs '<phase>__<name>' in the solver; the
    model has the two loss histories only, so no theorem below speaks about custom metrics. *)
-From Coq Require Import ZArith List Bool Reals.
+From Coq Require Import String ZArith List Bool Reals.
 From Flocq Require Import Core.Raux.
 From ND.model Require Import Callbacks CallbacksEve.
-From ND.proofs Require Import C16_pred C16_actions C16_tree C16_eve.
+From ND.gen Require Import Gen_C16.
+From ND.proofs Require Import C16_pred C16_actions C16_tree C16_eve C16_gen.
 Import ListNotations.
 
 Open Scope Z_scope.
@@ -154,3 +155,65 @@ Theorem C16_eve_at_power : forall (n_0 : Z) (v0 p : R) (k : nat),
   0 < v0 -> 0 < p -> p <> 1 ->
   eve_n n_0 None (v0 * p ^ k) v0 p = (n_0 * 2 ^ Z.of_nat k)%Z.
 Proof. exact eve_at_power. Qed.
+
+(* ---- the code as translated: every definition regenerated from neurodiffeq/callbacks.py by
+        tools/props/t_C16.py (gen/Gen_C16.v) equals the hand model, for all inputs ------------- *)
+
+Open Scope Z_scope.
+
+Theorem C16_gen_constants : forall l g m,
+  TrueCallback.fires l g m = cond (tview l g m) PTrue /\
+  FalseCallback.fires l g m = cond (tview l g m) PFalse /\
+  OnFirstLocal.fires l g m = cond (tview l g m) PFirstLocal /\
+  OnFirstGlobal.fires l g m = cond (tview l g m) PFirstGlobal /\
+  OnLastLocal.fires l g m = cond (tview l g m) PLastLocal.
+Proof. exact gen_constants. Qed.
+
+Theorem C16_gen_period : forall p o l g m,
+  PeriodLocal.fires p o l g m = cond (tview l g m) (period_local p o) /\
+  PeriodGlobal.fires p o l g m = cond (tview l g m) (period_global p o).
+Proof. exact gen_period. Qed.
+
+Theorem C16_gen_interval : forall lo hi l g m,
+  ClosedIntervalLocal.fires lo hi l g m = cond (tview l g m) (PIntLocal lo hi) /\
+  ClosedIntervalGlobal.fires lo hi l g m = cond (tview l g m) (PIntGlobal lo hi).
+Proof. exact gen_interval. Qed.
+
+Theorem C16_gen_and : forall v l, AndCallback.condition (map (cond v) l) = cond v (PAnd l).
+Proof. exact gen_and. Qed.
+
+Theorem C16_gen_or : forall v l, OrCallback.condition (map (cond v) l) = cond v (POr l).
+Proof. exact gen_or. Qed.
+
+Theorem C16_gen_not : forall v q, NotCallback.condition (cond v q) = cond v (PNot q).
+Proof. exact gen_not. Qed.
+
+Theorem C16_gen_xor : forall v l, XorCallback.condition (map (cond v) l) = cond v (PXor l).
+Proof. exact gen_xor. Qed.
+
+Theorem C16_gen_repeated : forall (arg n s : Z) (tr : bool) (metric : string) (v : view),
+  RepeatedMetricUp.fires arg tr metric n (hist_of tr v) = cond v (PRepeated (RUp arg) tr n s) /\
+  RepeatedMetricDown.fires arg tr metric n (hist_of tr v) = cond v (PRepeated (RDown arg) tr n s) /\
+  RepeatedMetricConverge.fires arg tr metric n (hist_of tr v) = cond v (PRepeated (r_converge arg) tr n s) /\
+  RepeatedMetricDiverge.fires arg tr metric n (hist_of tr v) = cond v (PRepeated (r_diverge arg) tr n s) /\
+  RepeatedMetricBelow.fires arg tr metric n (hist_of tr v) = cond v (PRepeated (RBelow arg) tr n s) /\
+  RepeatedMetricAbove.fires arg tr metric n (hist_of tr v) = cond v (PRepeated (RAbove arg) tr n s).
+Proof. exact gen_repeated. Qed.
+
+(* the fuel the emitter gives the while loop is enough: any extra fuel yields the same counter *)
+Theorem C16_gen_loop_fuel_adequate : forall pw ls n h extra,
+  RepeatedMetricChange.loop (S (List.length h) + extra) pw ls n h (if pw then 2 else 1) 0 =
+  RepeatedMetricChange.loop (S (List.length h)) pw ls n h (if pw then 2 else 1) 0.
+Proof. exact gen_loop_fuel_adequate. Qed.
+
+Theorem C16_gen_set_once : forall reset called,
+  SetLossFn.call reset called = set_once reset called /\ SetOptimizer.call reset called = set_once reset called.
+Proof. exact gen_set_once. Qed.
+
+Theorem C16_gen_optimizer_params : forall {P : Type} (dec : forall x y : P, {x = y} + {x <> y}) (nets : list (list P)),
+  SetOptimizer.params dec nets = opt_params dec nets.
+Proof. exact @gen_optimizer_params. Qed.
+
+Theorem C16_gen_eve : forall (v0 p : R) (n_0 : Z) (n_max : option Z) (tr : bool) (metric : string) (value : R),
+  EveCallback.n_batches v0 p n_0 n_max tr metric value = Fin (eve_n n_0 n_max value v0 p).
+Proof. exact gen_eve. Qed.
